@@ -30,6 +30,17 @@ def main():
         rows.append('| %s | %s | %s | %s | %s |' % (os.path.basename(d), m['property'], str(m.get('summary', '')).replace('|', '/').replace('\n', ' ')[:260],
                                                      str(m.get('needs_to_manifest', '')).replace('|', '/').replace('\n', ' ')[:200], res))
     s = block('seeded', '\n'.join(rows), s)
+    rows = ['| id | property | kind | what was changed | what an observer can still notice | tests | quick check |', '|---|---|---|---|---|---|---|']
+    for d in sorted(x for x in glob.glob(os.path.join(V, 'benign', '*')) if os.path.isdir(x)):
+        m = json.load(open(os.path.join(d, 'meta.json')))
+        res = 'silent' if m.get('check_silent') else 'ALARM'
+        if m.get('verdict'):
+            res = m['verdict']
+        rows.append('| %s | %s | %s | %s | %s | %s | %s |' % (os.path.basename(d), m['property'], m.get('kind', '?'),
+                    str(m.get('summary', '')).replace('|', '/').replace('\n', ' ')[:240],
+                    str(m.get('observable_differences', '')).replace('|', '/').replace('\n', ' ')[:200],
+                    'pass' if m.get('tests_pass') else 'FAIL', res))
+    s = block('benign', '\n'.join(rows), s)
     man = json.load(open(os.path.join(V, 'MANIFEST.json')))
     rows = ['| property | level claimed | spec module(s) | quick cmd |', '|---|---|---|---|']
     mods = {'C01': 'Yanny, MC_YannyDoc, Trace_YannyRead', 'C02': 'Yanny, MC_YannyLayout, MC_YannyCanon, Trace_YannyRead', 'C03': 'YannyFile, MC_YannyFile, Trace_YannyFile'}
